@@ -1,5 +1,7 @@
 package diff
 
+import "sort"
+
 // This is a simple DSL for diffing arrays
 
 // fromArrayStruct utility struct to encompass diffing of string arrays
@@ -47,6 +49,10 @@ func (f fromArrayStruct) DiffsTo(toArray []string) (added, deleted, common []str
 			common = append(common, key)
 		}
 	}
+	// the map is ranged over in random order: report the values in a stable order
+	sort.Strings(added)
+	sort.Strings(deleted)
+	sort.Strings(common)
 	return
 }
 
